@@ -8,6 +8,7 @@ package main
 // ("no read was in flight when Close was entered") on the log afterwards.
 
 import (
+	"context"
 	"fmt"
 	"sort"
 	"strings"
@@ -29,7 +30,11 @@ type gCall struct {
 	N      int
 	ErrNil bool
 	Err    string
-	Data   []byte // copy of the bytes handed back (reads) / received (writes); for listings the joined names
+	Data   []byte // copy of the bytes handed back (reads) / received (writes); for listings the joined names; for commands and opens what the handler was shown (gSeen)
+	// CtxDone (request server, calls on an opened object): the context of the request that opened the object was
+	// found cancelled when the call ran (for a held call: when it was let go).
+	CtxDone bool
+	Free    bool // logged only: neither held nor accounted for (gFreeCall)
 
 	gated    bool
 	released bool
@@ -56,6 +61,8 @@ type gHub struct {
 	// never: calls of these methods (Op) are logged but never held (the modifying methods of the files of a
 	// read-only server: no request may reach them, and one that does must not stall the case).
 	never map[string]bool
+	// free, when not nil: calls it accepts are logged but never held (and marked Free).
+	free func(op, obj string) bool
 	// indexes over calls, so that pipelines of 10^5 calls do not cost a scan of the whole log per call
 	live   []*gCall // calls that have not returned yet (log order)
 	gates  []*gCall // calls that were held on entry (log order)
@@ -104,6 +111,9 @@ func (h *gHub) enter(op, obj, base string, numbered bool, off int64, buf []byte,
 	if h.never[op] {
 		c.gated = false
 	}
+	if h.free != nil && h.free(op, obj) {
+		c.gated, c.Free = false, true
+	}
 	h.calls = append(h.calls, c)
 	h.live = append(h.live, c)
 	if c.gated {
@@ -144,6 +154,15 @@ func (h *gHub) leave(c *gCall, n int, err error, data []byte) {
 	}
 	h.broadcast()
 	h.mu.Unlock()
+}
+
+// ctxState records on call c whether ctx (the context of the request that opened c's object) is cancelled by now.
+func (h *gHub) ctxState(c *gCall, ctx context.Context) {
+	if gCtxDone(ctx) {
+		h.mu.Lock()
+		c.CtxDone = true
+		h.mu.Unlock()
+	}
 }
 
 // blocked returns the keys of the calls that sit on a closed gate.
